@@ -149,6 +149,11 @@ def run_config(cfg):
         w_ref = torch.tensor(W[k][: n_iter + 1], dtype=torch.float64)
         sq_ref = sum(W[k][j] * j * j for j in range(1, n_iter + 1))
         phase = "memory-less" if k <= n_b_ref else ("first iteration after the memory-less phase" if k == n_b_ref + 1 else "with memory")
+        if any((not isinstance(t_, torch.Tensor)) or t_.is_complex() or t_.shape != r_.shape
+               for t_, r_ in ((S["onehot"], w_ref), (S["sq"], torch.tensor(0.0)))):
+            problems.append((f"_maximization_step|statistics are not real tensors of the collected shape|{phase}",
+                             f"k={k} n_b={n_b_ref} p={power}: {S['onehot']!r}"[:400]))
+            return "ran", trace, problems
         if burn != (k <= n_b_ref):
             problems.append((f"_maximization_step|burn-in flag passed to the update|{phase}", f"k={k} n_b={n_b_ref} burn_in={burn}"))
         if not torch.allclose(S["onehot"], w_ref, rtol=1e-9, atol=1e-12):
